@@ -12,6 +12,10 @@
 (*   protect    "intended" | "shipped"   protect set of the tree statement *)
 (*   quoteAware TRUE | FALSE   do the readers tell a quoted token from     *)
 (*                             punctuation?  (shipped: FALSE)              *)
+(*   leadAware  TRUE | FALSE   the same question at one more site: the loop  *)
+(*                             of _parse_tree_statement that skips ';' in    *)
+(*                             front of a statement (a single-node tree whose*)
+(*                             only label is ';'); shipped: FALSE            *)
 (*   attr       "xml" | "json"  NeXML attribute protection (shipped: json) *)
 (*   missingLen "root" | "all"  which NeXML edges read a missing length as *)
 (*                             0 (shipped: all)                            *)
@@ -25,8 +29,8 @@
 (***************************************************************************)
 EXTENDS NexusToken, TreeBase
 
-NwReference == [protect |-> "intended", quoteAware |-> TRUE, attr |-> "xml", missingLen |-> "root", emptyOk |-> TRUE, dbl |-> TRUE]
-NwShipped == [protect |-> "shipped", quoteAware |-> FALSE, attr |-> "json", missingLen |-> "all", emptyOk |-> FALSE, dbl |-> TRUE]
+NwReference == [protect |-> "intended", quoteAware |-> TRUE, leadAware |-> TRUE, attr |-> "xml", missingLen |-> "root", emptyOk |-> TRUE, dbl |-> TRUE]
+NwShipped == [protect |-> "shipped", quoteAware |-> FALSE, leadAware |-> FALSE, attr |-> "json", missingLen |-> "all", emptyOk |-> FALSE, dbl |-> TRUE]
 
 NwDigits == <<"1", "2", "3", "4", "5", "6", "7", "8", "9">>
 NwNum(k) == IF k \in 1..9 THEN <<NwDigits[k]>> ELSE <<"1", "1">>         \* str(k); the models stay below 10
@@ -175,7 +179,7 @@ NwLastRootTok(tc) == IF tc = <<>> THEN ""
 RECURSIVE NwSkipSemis(_, _, _)
 \* while (current_token == ";" or current_token is None) and not eof: require_next_token()
 NwSkipSemis(P, tc, d) ==
-    IF P.err = "" /\ (NwIs(P, "sc", d) \/ NwCur(P).k = "none") /\ ~P.eof
+    IF P.err = "" /\ ((NwCur(P).k = "tok" /\ NwCur(P).s = <<"sc">> /\ (d.leadAware => ~NwCur(P).q)) \/ NwCur(P).k = "none") /\ ~P.eof
       THEN LET P1 == NwAdvance(P, ~(d.emptyOk)) IN NwSkipSemis(NwPull(P1), P1.pend, d)
       ELSE [P |-> P, tc |-> tc]
 RECURSIVE NwSkipTrailingSemis(_, _)
